@@ -593,6 +593,8 @@ func (c *Client) PerformTransaction(msg *stun.Message, to net.Addr, ignoreResult
 	c.log.Tracef("Start %s transaction %s to %s", msg.Type, trKey, tr.To)
 	_, err := c.conn.WriteTo(tr.Raw, to)
 	if err != nil {
+		c.trMap.Delete(trKey)
+
 		return client.TransactionResult{}, err
 	}
 
